@@ -376,8 +376,50 @@ def check(ctx, case):
                  (tam['op'], medium, kinds, why), case)
 
 
+def check_dup(ctx, case):
+    """Directed class: a P2SH multisig whose redeem script lists the same key twice. One valid signature must not
+    be counted for both positions."""
+    from ref import wire, ec, sighash, interp
+    from ref import address as raddr
+    from ref.hashes import hash160
+    from bitcoinlib.transactions import Transaction
+    d = int(case['secret'], 16)
+    d2 = int(case['secret2'], 16)
+    pa = ec.ser_compressed(ec.pubkey(d))
+    pb = ec.ser_compressed(ec.pubkey(d2))
+    keys = {'AA': [pa, pa], 'AAB': [pa, pa, pb], 'ABA': [pa, pb, pa]}[case['shape']]
+    m = 2
+    redeem = raddr.script_multisig(m, keys)
+    spk = raddr.script_p2sh(hash160(redeem))
+    tx = wire.Tx(2, [wire.TxIn(bytes.fromhex(case['prev']), 0, b'', 0xfffffffd)],
+                 [wire.TxOut(5000, raddr.script_p2pkh(b'\x11' * 20))], 0)
+    dg = sighash.legacy_sighash(tx, 0, redeem, 1)
+    r, s_ = ec.sign(dg, d)
+    good = ec.der_encode(r, s_) + b'\x01'
+    r2, s2 = ec.sign(bytes(31) + b'\x09', d)
+    junk = ec.der_encode(r2, s2) + b'\x01'
+    sigs = {'good+junk': [good, junk], 'junk+good': [junk, good], 'good+good': [good, good]}[case['sigs']]
+    tx.vin[0].script_sig = wire.script_build([0] + sigs + [redeem])
+    ref_ok, why = interp.verify_input(tx, 0, spk, 10000)
+    try:
+        t = Transaction.parse(tx.serialize())
+        t.inputs[0].value = 10000
+        got = bool(t.verify())
+    except Exception as e:
+        got = False
+    if got and not ref_ok:
+        ctx.disc('sound.duplicate_key_counted_twice',
+                 'redeem script lists a key twice (%s), signatures %s: verify() True, consensus rejects (%s)' %
+                 (case['shape'], case['sigs'], why), case, kf='C02-duplicate-key-one-signature-counted-twice')
+    elif ref_ok and not got:
+        ctx.klass('dup.valid_refused')
+
+
 def replay(ctx, case):
-    check(ctx, case)
+    if case.get('kind') == 'dup':
+        check_dup(ctx, case)
+    else:
+        check(ctx, case)
 
 
 def _strategy(ctx):
@@ -430,3 +472,17 @@ def run(ctx):
         check(ctx, case)
 
     ctx.run_given('verify', _strategy(ctx), prop, ctx.scale(150, 3000))
+
+    from hypothesis import strategies as st
+    from vlib import gen
+    dup = st.fixed_dictionaries({'kind': st.just('dup'), 'secret': gen.secrets().map(lambda v: '%064x' % v),
+                                 'secret2': gen.secrets().map(lambda v: '%064x' % v),
+                                 'shape': st.sampled_from(['AA', 'AAB', 'ABA']),
+                                 'sigs': st.sampled_from(['good+junk', 'junk+good', 'good+good']),
+                                 'prev': st.binary(min_size=32, max_size=32).filter(lambda b: b != bytes(32)).map(bytes.hex)})
+
+    def prop_dup(case):
+        ctx.nt(('dup', case['shape'], case['sigs'], case['secret']))
+        ctx.klass('dup.' + case['shape'] + '.' + case['sigs'])
+        check_dup(ctx, case)
+    ctx.run_given('dup', dup.filter(lambda c: c['secret'] != c['secret2']), prop_dup, ctx.scale(12, 200))
